@@ -71,7 +71,7 @@ func init() {
 		Level:     "exploration",
 		Technique: "property-based testing (rapid) with an ill-typed ('wild') program generator + complete filter x value x argument-list and operator x operand-kind grids; totality oracle in a sandboxed worker",
 		Rule: "wild programs: the full grammar (every tag and operator, nesting, inheritance up to 4 levels with parent() at every level, use, include, embed, macros in all call forms) with operands of any kind given to any operator, filter, test, attribute access, method call and tag, over a context of ordinary Go values (all numeric kinds, nil, typed nil pointers, slices, maps with string/int keys, structs with unexported fields and methods, pointers); run on stick.New and twig.New. " +
-			"Grids: every Twig built-in filter (31) x 41 value kinds x 30 argument lists (incl. hostile format strings); every binary operator x 41 x 41 operand kinds (thorough: all; quick: seeded sample). Excluded as the statement allows: recursion, ranges with computed endpoints (literal endpoints in [-50,50]), panicking callbacks. " +
+			"Grids: every Twig built-in filter (31) x 47 value kinds x 30 argument lists (incl. hostile format strings); every binary operator x 48 x 48 operand kinds (thorough: all; quick: seeded sample plus every pair of safe-wrapped lists, lists sharing sub-lists and nil SafeValue pointers). Excluded as the statement allows: recursion, ranges with computed endpoints (literal endpoints in [-50,50]), panicking callbacks. " +
 			"Oracle: the observation is ok or error within the deadline; panic, crash, confirmed hang or memory blow-up is a violation. Non-trivial: the template parsed and executed (a parse error does not count); distinct by case.",
 		Assumptions: []string{"hang = no answer within 2 s, confirmed twice at 10 s", "the value menagerie is a fixed, documented list (worker/values.go)"},
 	}
